@@ -5,6 +5,10 @@ Router | Subpaths | Hosts | Files | Pages) is serialised to HTTP/1.1 wire bytes,
 1..3 faults (truncate / bit flip / drop / duplicate / swap / dictionary splice, positions biased by
 field) corrupt it, a tolerant front-end (sim/transport.py: what real ASGI / WSGI servers accept) turns
 the result into scope + receive() script or environ + wsgi.input, and the target runs on baize.
+The corruption happens either in flight (Content-Length stays as sent: the server delivers
+min(declared, available) bytes and then disconnect / EOF) or at the source (a hostile or broken
+client frames its own bytes: Content-Length is recomputed) - only the second kind lets an over-long
+body (5000-digit number, 2000 nested brackets) through a server.  One run in 16 is fault-free.
 
 Oracle: every entry point ends in a value, a response with status < 500, an HTTPException with
 400 <= status < 500, baize.asgi.ClientDisconnect or RuntimeError("Stream consumed").  Anything else
@@ -129,6 +133,8 @@ class C12(Prop):
                    "ASCII) and scope['path'] = unquote(raw_path) (invalid UTF-8 -> U+FFFD), WSGI PATH_INFO / QUERY_STRING are Latin-1 decoded bytes",
                    "ASGI servers refuse a non-numeric or conflicting Content-Length; tolerant WSGI servers (wsgiref) pass the raw string on",
                    "the server delivers min(declared, available) body bytes; a body shorter than declared ends in http.disconnect (ASGI) or EOF (WSGI)",
+                   "in half of the runs that have a body the corruption is applied at the source: Content-Length is recomputed from the corrupted body (unless that header itself was damaged)",
+                   "Subpaths and Hosts mount plain endpoints, so a Router / Files / Pages failure is reported once, under its own target; request.close() is not called after a form access that already escaped",
                    "a head larger than 16 KiB is refused by the front-end (h11 default)",
                    "ClientDisconnect is accepted whenever it is raised (its exact conditions are C10's business)",
                    "the raw-noise-over-every-header part of the quantifier is covered only as far as the corruption faults reach")
@@ -141,8 +147,8 @@ class C12(Prop):
                    "outcome_value", "outcome_response", "outcome_http_4xx", "outcome_disconnect", "body_shorter_than_declared",
                    "field_path", "field_query", "field_header", "field_body", "field_part", "fault_free_run",
                    "corrupted_at_source_content_length_recomputed") + tuple("target_" + n for _, n in TARGETS)
-    quick_runs = 800000
-    thorough_runs = 8000000
+    quick_runs = 400000
+    thorough_runs = 6000000
     batch = 1000
 
     # -----------------------------------------------------------------------------------------
@@ -322,7 +328,7 @@ class C12(Prop):
         body = b"" if m is None else wire[m.end():]
         fl = ", ".join("%s@%s+%d%s" % (f["kind"], f["field"], f["at"], ("=" + tr.payload_name(f["arg"])) if f["kind"] == "splice" and f["arg"] is not None else "")
                        for f in plan["faults"] if f["fired"])
-        lines = head.split(b"\r\n")
+        lines = [ln.rstrip(b"\r") for ln in head.split(b"\n")]
         hit = {f["field"][2:] for f in plan["faults"] if f["field"] and f["field"].startswith("h:")}
         keep = [lines[0]] + [ln for ln in lines[1:] if ln.split(b":")[0].lower().decode("latin-1") in hit | {"content-type", "host", "range"}]
         return "faults[%s] request %s%s" % (fl, " | ".join(_abbr(ln, 150) for ln in keep[:6]), (" body " + _abbr(body, 160)) if body else "")
